@@ -31,6 +31,29 @@ class CallMixin:  # pylint:disable=too-many-public-methods
                         out[kw.arg] = self.attr_memo[key]
         return out
 
+    def has_active_decorators(self, fn: FuncDef) -> bool:
+        for d in fn.node.decorator_list:
+            name = dotted(d.func if isinstance(d, ast.Call) else d) or norm(d)
+            if not any(name == p or name.endswith("." + p) for p in PASS_THROUGH_DECORATORS):
+                return True
+        return False
+
+    def bound_value(self, fn: FuncDef, func: FuncVal) -> Any:
+        """The object bound to the function's name: its decorators applied bottom-up (once per abstract run)."""
+        key = ("bound", fn.qualname, id(func.self_obj) if func.self_obj is not None else 0)
+        if key not in self.attr_memo:
+            from .fdai import Frame
+
+            val: Any = FuncVal(fn=fn, self_obj=func.self_obj, env=func.env, module=func.module, raw=True)
+            frame = Frame(None, fn.module, None, set())
+            for d in reversed(fn.node.decorator_list):
+                name = dotted(d.func if isinstance(d, ast.Call) else d) or norm(d)
+                if any(name == p or name.endswith("." + p) for p in PASS_THROUGH_DECORATORS):
+                    continue
+                val = self.call(self.eval(d, frame), [val], {}, d, frame)
+            self.attr_memo[key] = val
+        return self.attr_memo[key]
+
     def check_decorators(self, fn: FuncDef) -> None:
         for d in fn.node.decorator_list:
             name = dotted(d.func if isinstance(d, ast.Call) else d) or norm(d)
@@ -66,7 +89,8 @@ class CallMixin:  # pylint:disable=too-many-public-methods
             fn: FuncDef = func.fn
             if fn.qualname in self.summaries:
                 return self.summaries[fn.qualname](self, func, args, kwargs)
-            self.check_decorators(fn)
+            if not func.raw and self.has_active_decorators(fn):
+                return self.call(self.bound_value(fn, func), args, kwargs, node, frame)
             if fn.is_async:
                 return CoroVal(func, list(args), dict(kwargs))
             if any(isinstance(n, (ast.Yield, ast.YieldFrom)) for n in ast.walk(fn.node)):
@@ -78,6 +102,23 @@ class CallMixin:  # pylint:disable=too-many-public-methods
             return self.call_ext(func.name, args, kwargs, node, frame)
         if isinstance(func, BoundExt):
             return self.call_bound(func, args, kwargs, node, frame)
+        if isinstance(func, Obj) and func.cls == "functools.lru_cache_decorator":
+            return Obj("functools.lru_cache_wrapper", {"fn": args[0], "cache": {}, "maxsize": func.fields.get("maxsize"), "order": []})
+        if isinstance(func, Obj) and func.cls == "functools.lru_cache_wrapper":
+            key = tuple(self.hashable(a, node, frame) for a in args) + tuple(sorted((k, self.hashable(v, node, frame)) for k, v in kwargs.items()))
+            cache = func.fields["cache"]
+            if key in cache:
+                func.fields["order"].remove(key)
+                func.fields["order"].append(key)
+                return cache[key]
+            val = self.call(func.fields["fn"], args, kwargs, node, frame)  # an exception is not cached
+            cache[key] = val
+            func.fields["order"].append(key)
+            ms = func.fields.get("maxsize")
+            if isinstance(ms, int) and len(cache) > ms:
+                oldest = func.fields["order"].pop(0)
+                del cache[oldest]
+            return val
         if isinstance(func, Opaque):
             if func.label.startswith("logger.") or func.kind == "logging.Logger":
                 return None
@@ -257,6 +298,11 @@ class CallMixin:  # pylint:disable=too-many-public-methods
                     return self.attr_memo[key]
             if cls is not None and self.model.is_transformer(cls) and attr == "transform":
                 return BoundExt(v, "transform")
+            if v.cls == "functools.lru_cache_wrapper":
+                if attr in ("cache_info", "cache_clear"):
+                    return BoundExt(v, attr)
+                if attr == "__wrapped__":
+                    return v.fields["fn"]
             if v.cls == "re.Pattern" and attr in ("sub", "match", "fullmatch", "search", "findall"):
                 return BoundExt(v, attr)
             if v.cls == "re.Match" and attr in ("group", "groupdict", "groups"):
@@ -481,6 +527,14 @@ class CallMixin:  # pylint:disable=too-many-public-methods
                 return None
         if isinstance(r, Obj) and r.cls in ("lark.Tree",):
             return self.tree_method(r, a, args, kwargs, node, frame)
+        if isinstance(r, Obj) and r.cls == "functools.lru_cache_wrapper":
+            if a == "cache_info":
+                return Obj("functools.CacheInfo", {"currsize": len(r.fields["cache"]), "maxsize": r.fields.get("maxsize"),
+                                                   "hits": Opaque("hits"), "misses": Opaque("misses")})
+            if a == "cache_clear":
+                r.fields["cache"].clear()
+                r.fields["order"].clear()
+                return None
         if isinstance(r, CoroVal) and a == "close":
             r.awaited = True
             return None
@@ -721,7 +775,14 @@ class CallMixin:  # pylint:disable=too-many-public-methods
         if short == "print":
             return None
         if short == "id":
-            return Opaque("id()")
+            self._keepalive = getattr(self, "_keepalive", [])
+            self._keepalive.append(args[0])
+            return id(args[0])
+        if name in ("pickle.dumps", "marshal.dumps"):
+            return Obj("builtins.bytes", {"pickled": self.deepcopy(args[0])})
+        if name in ("pickle.loads", "marshal.loads"):
+            if isinstance(args[0], Obj) and "pickled" in args[0].fields:
+                return self.deepcopy(args[0].fields["pickled"])
         if short == "super":
             if frame is None or frame.fn is None or frame.fn.cls is None or not frame.fn.params:
                 raise Unsupported("super() outside a method")
@@ -746,6 +807,14 @@ class CallMixin:  # pylint:disable=too-many-public-methods
             r = args[1] if len(args) > 1 else kwargs.get("r")
             fn_ = _it.combinations if short == "itertools.combinations" else _it.permutations
             return [tuple(t) for t in fn_(seqs[0], r)]
+        if name in ("asyncio.ensure_future", "asyncio.create_task", "asyncio.shield"):
+            return args[0]
+        if name == "asyncio.as_completed":
+            items = self.iterate(args[0], node, frame)
+            order = self.gather_order(len(items)) if hasattr(self, "gather_order") else range(len(items))
+            return [items[i] for i in order]  # completion order = the schedule chosen by the rule
+        if name == "asyncio.sleep":
+            return Ready(None)
         if name == "asyncio.gather":
             return GatherVal(list(args))
         if name in ("inspect.isawaitable", "asyncio.iscoroutine", "inspect.iscoroutine"):
@@ -769,6 +838,13 @@ class CallMixin:  # pylint:disable=too-many-public-methods
             if isinstance(v, Obj):
                 return Obj(v.cls, dict(v.fields))
             return v
+        if name in ("functools.lru_cache", "functools.cache"):
+            if name == "functools.cache":
+                return Obj("functools.lru_cache_wrapper", {"fn": args[0], "cache": {}, "maxsize": None, "order": []})
+            if len(args) == 1 and isinstance(args[0], (FuncVal, Obj)) and not kwargs:
+                return Obj("functools.lru_cache_wrapper", {"fn": args[0], "cache": {}, "maxsize": 128, "order": []})
+            ms = kwargs.get("maxsize", args[0] if args else 128)
+            return Obj("functools.lru_cache_decorator", {"maxsize": ms})
         if name == "logging.getLogger":
             return Opaque("logger", kind="logging.Logger", truthy=True)
         if name.startswith("typing.") or name in ("typing.TypeVar", "typing.cast"):
